@@ -32,7 +32,7 @@ RULE = ("programs = setUp/test/tearDown bodies over statements (raise any of ~25
         "skip/expectedFailure decorators, missing upcalls and inserted handlers for Exception-derived classes, each run "
         "against one of 7 result flavours; exhaustive: every assignment of 10 behaviours to setUp/test/tearDown/0-1(2) "
         "cleanups; random: nested registration to depth 3; non-trivial = at least 2 raising statements, or a "
-        "non-Exception exception, or a nested cleanup; distinct = distinct JSON")
+        "non-Exception exception, or a nested cleanup; distinct = distinct JSON; plus @unittest.expectedFailure tests whose body ends in every behaviour (incl. SystemExit / KeyboardInterrupt passing through the wrapper) with later stages raising, force_failure set on the failed-setUp path, fixtures with an unevaluable detail")
 TRUSTED = ["the result doubles of testtools.testresult.doubles and a logging testtools.TestResult subclass are the "
            "observation devices", "fixtures.Fixture setUp/cleanUp (fixtures 4.3.2) is modelled, not verified"]
 ASSUMPTIONS = ["the result object and addOnException handlers do not raise",
@@ -129,6 +129,13 @@ def generate(rng, tier):
             cases.append({"prog": p, "flavour": f})
     # force_failure set in setUp / in a cleanup, setUp ending in every behaviour (fix 889980a)
     for k, (p, _) in enumerate(R.setup_force_programs()):
+        for f in (R.FLAVOURS if tier == "thorough" else [R.FLAVOURS[k % 7]]):
+            cases.append({"prog": p, "flavour": f})
+    for k, (p, _) in enumerate(R.badfx_programs()):
+        if tier == "thorough" or k % 4 == 0:
+            cases.append({"prog": p, "flavour": R.FLAVOURS[k % 7]})
+    # @unittest.expectedFailure tests whose body ends in every behaviour, later stages raising
+    for k, (p, _) in enumerate(R.xfail_programs()):
         for f in (R.FLAVOURS if tier == "thorough" else [R.FLAVOURS[k % 7]]):
             cases.append({"prog": p, "flavour": f})
     # bounded-exhaustive core
